@@ -2,10 +2,10 @@ package rules
 
 import (
 	"fmt"
-	"os"
 	"go/constant"
 	"go/token"
 	"go/types"
+	"os"
 	"sort"
 	"strings"
 
@@ -377,44 +377,111 @@ func checkTCPCLCodes(p *core.Program, r *core.Report, msgTypes []string) {
 		}
 		r.Check(tk == first && tk == cmp, key, rule, p.Pos(un.Pos()), fmt.Sprintf("%#x", tk), fmt.Sprintf("table %#x, written first %#x, compared %#x", tk, first, cmp))
 	}
-	// ReadMessage re-prepends the consumed byte
+	// ReadMessage: every decoder it starts gets a reader that begins with the byte consumed for the dispatch
 	rm := p.Func(msgsPkg, "", "ReadMessage")
-	okRe := false
-	for _, c := range core.CallsTo(rm, "io.MultiReader") {
-		// first reader is a buffer over the same byte slice that was read
-		var first ssa.Value
-		if sl, ok := core.Arg(c, 0).(*ssa.Slice); ok {
-			if a, ok := sl.X.(*ssa.Alloc); ok {
-				for _, ref := range *a.Referrers() {
-					if ia, ok := ref.(*ssa.IndexAddr); ok {
-						if k, ok := core.ConstInt(ia.Index); ok && k == 0 {
-							for _, rr := range *ia.Referrers() {
-								if st, ok := rr.(*ssa.Store); ok {
-									first = st.Val
+	var unm []*ssa.Call
+	core.EachInstr(rm, func(in ssa.Instruction) {
+		if cc, ok := in.(*ssa.Call); ok && cc.Common().IsInvoke() && cc.Common().Method.Name() == "Unmarshal" {
+			unm = append(unm, cc)
+		}
+	})
+	methodCalls := func(name string) []*ssa.Call {
+		var out []*ssa.Call
+		core.EachInstr(rm, func(in ssa.Instruction) {
+			if cc, ok := in.(*ssa.Call); ok && core.CallRecv(cc) != nil {
+				n := ""
+				if cc.Common().IsInvoke() {
+					n = cc.Common().Method.Name()
+				} else if f := cc.Common().StaticCallee(); f != nil {
+					n = f.Name()
+				}
+				if n == name {
+					out = append(out, cc)
+				}
+			}
+		})
+		return out
+	}
+	rb, ub, pk := methodCalls("ReadByte"), methodCalls("UnreadByte"), methodCalls("Peek")
+	okRe, whyRe := len(unm) > 0, "no decoder is started"
+	for _, u := range unm {
+		rd := u.Common().Args[0]
+		okSite := false
+		why := "the consumed byte is not re-prepended / Unmarshal reads the raw reader"
+		if c, isMR := rd.(*ssa.Call); isMR && core.CalleeName(c) == "io.MultiReader" {
+			// (a) the first reader is a buffer over the same byte slice that was read
+			var first ssa.Value
+			if sl, ok := core.Arg(c, 0).(*ssa.Slice); ok {
+				if a, ok := sl.X.(*ssa.Alloc); ok {
+					for _, ref := range *a.Referrers() {
+						if ia, ok := ref.(*ssa.IndexAddr); ok {
+							if k, ok := core.ConstInt(ia.Index); ok && k == 0 {
+								for _, rr := range *ia.Referrers() {
+									if st, ok := rr.(*ssa.Store); ok {
+										first = st.Val
+									}
 								}
 							}
 						}
 					}
 				}
 			}
-		}
-		var readBuf ssa.Value
-		for _, rf := range core.CallsTo(rm, "io.ReadFull") {
-			readBuf = core.Arg(rf, 1)
-		}
-		if first != nil && readBuf != nil && core.DependsOn(first, func(v ssa.Value) bool { return v == readBuf }) {
-			okRe = true
-		}
-		// Unmarshal gets the multi reader
-		okUn := false
-		core.EachInstr(rm, func(in ssa.Instruction) {
-			if cc, ok := in.(*ssa.Call); ok && cc.Common().IsInvoke() && cc.Common().Method.Name() == "Unmarshal" && cc.Common().Args[0] == c.(ssa.Value) {
-				okUn = true
+			for _, rf := range core.CallsTo(rm, "io.ReadFull") {
+				readBuf := core.Arg(rf, 1)
+				if first != nil && core.DependsOn(first, func(v ssa.Value) bool { return v == readBuf }) {
+					okSite = true
+				}
 			}
-		})
-		okRe = okRe && okUn
+		} else {
+			// (b) the dispatch byte is only looked at: Peek, or ReadByte put back by UnreadByte on every path, on the
+			// very reader the decoder then reads; and no io.ReadFull consumed from it before
+			same := func(c *ssa.Call) bool { return core.Strip(core.CallRecv(c)) == core.Strip(rd) }
+			looked := false
+			okSite = true
+			for _, c := range pk {
+				if same(c) {
+					looked = true
+				}
+			}
+			for _, c := range rb {
+				if !same(c) {
+					continue
+				}
+				looked = true
+				okSite = okSite && core.MustPassBefore(u, func(i ssa.Instruction) bool {
+					cc, ok := i.(*ssa.Call)
+					if !ok {
+						return false
+					}
+					for _, x := range ub {
+						if x == cc && same(cc) {
+							return true
+						}
+					}
+					return false
+				})
+			}
+			okSite = okSite && looked
+			for _, rf := range core.CallsTo(rm, "io.ReadFull") {
+				if core.Strip(core.Arg(rf, 0)) == core.Strip(rd) && core.BlocksReachableFrom(rf.Block())[u.Block()] {
+					okSite = false
+				}
+			}
+			// a buffered reader created for this one call reads ahead and is dropped on return: the bytes it buffered
+			// beyond this message are lost to the next ReadMessage
+			if core.DependsOn(rd, func(v ssa.Value) bool {
+				c, ok := v.(*ssa.Call)
+				return ok && strings.HasPrefix(core.CalleeName(c), "bufio.New")
+			}) {
+				okSite = false
+				why = "Unmarshal reads through a buffered reader made for this call only; what it read ahead is lost when ReadMessage returns, the next message is decoded from the wrong offset"
+			}
+		}
+		if !okSite {
+			okRe, whyRe = false, p.Pos(u.Pos())+": "+why
+		}
 	}
-	r.Check(okRe, "codes/tcpclv4/ReadMessage-re-prepends", "ReadMessage hands the type's decoder a reader that starts with exactly the byte it consumed for dispatch (the stream stays aligned)", p.Pos(rm.Pos()), "", "the consumed byte is not re-prepended / Unmarshal reads the raw reader")
+	r.Check(okRe, "codes/tcpclv4/ReadMessage-re-prepends", "ReadMessage hands the type's decoder a reader that starts with exactly the byte it consumed for dispatch (the stream stays aligned)", p.Pos(rm.Pos()), fmt.Sprintf("%d decoder start(s)", len(unm)), whyRe)
 }
 
 func checkWamCodes(p *core.Program, r *core.Report) {
